@@ -146,7 +146,12 @@ def judge(sh, w, db, sid, code, inexact, witness_of=None):
         return
     sh.judged()
     if "unit " in code and r.get("ok"):
-        db = load_unitdb(w, sid)      # the program defined units of its own: the model learns their definitions
+        try:
+            db = load_unitdb(w, sid)      # the program defined units of its own: the model learns their definitions
+        except (OverflowError, ValueError, ArithmeticError):
+            # a generated unit with a non-finite definition factor (`unit u = (1e200 m)^2 * ...`): outside the model
+            sh.count("program defines a unit the exact model cannot represent (not judged)")
+            return
     probs, matched = check_trace(sh, db, r)
     if not r.get("ok"):
         kind = r.get("kind") or ""
